@@ -80,6 +80,10 @@ func c10cases() []c10case {
 							if k >= 2 && (lib.Thorough() || k == maxK) {
 								// listings of more than one page (page size 2)
 								out = append(out, c10case{K: k, Labels: labels, LeftPos: pos, LeftKind: lk, N: n, Opt: opt, Batch: 2, Empty: -1})
+								if pos >= 0 && lk == 1 {
+									// page size 1: the interrupted upload fills a listing page of its own
+									out = append(out, c10case{K: k, Labels: labels, LeftPos: pos, LeftKind: lk, N: n, Opt: opt, Batch: 1, Empty: -1})
+								}
 							}
 						}
 					}
@@ -263,7 +267,7 @@ func TestC10(t *testing.T) {
 	rep := lib.NewReport("C10", "model_checking")
 	defer rep.Finish(t)
 	cases := c10cases()
-	rep.Rule = "exhaustive product: 0..4 (quick 3) committed bundles one fake second apart x per-bundle labels in {none, plain tag, semver tag, plain tag listed before + semver, semver + plain tag listed after} x an interrupted upload (1 or 2 index files written, no descriptor) at every position (none/before/between/after) x retain-N in 1..3 (quick 2) x {no option, retain-tags, retain-semver-tags} x listing page size {default, 2 (quick: for the largest histories)}; plus, for unlabelled histories, each committed bundle in turn being an empty commit, on stores where deleting a missing key fails (GCS) and where it succeeds (S3, localfs); real RepoSquash in a fake-clock bubble; oracle: kept = N most recent committed + labelled per option, the rest and their labels gone (no metadata left), kept bundles download unchanged, most recent committed bundle always kept; plus squash (retain 1, with/without a leftover newer than every bundle, with/without retain-tags) under a single transient failure at EVERY metadata call: bundles to keep are never removed and stay downloadable whatever squash reports, a reported success means exactly the specified set; distinct = distinct cases"
+	rep.Rule = "exhaustive product: 0..4 (quick 3) committed bundles one fake second apart x per-bundle labels in {none, plain tag, semver tag, plain tag listed before + semver, semver + plain tag listed after} x an interrupted upload (1 or 2 index files written, no descriptor) at every position (none/before/between/after) x retain-N in 1..3 (quick 2) x {no option, retain-tags, retain-semver-tags} x listing page size {default, 2, and 1 when there is an interrupted upload: it then fills a page of its own (quick: for the largest histories)}; plus, for unlabelled histories, each committed bundle in turn being an empty commit, on stores where deleting a missing key fails (GCS) and where it succeeds (S3, localfs); real RepoSquash in a fake-clock bubble; oracle: kept = N most recent committed + labelled per option, the rest and their labels gone (no metadata left), kept bundles download unchanged, most recent committed bundle always kept; plus squash (retain 1, with/without a leftover newer than every bundle, with/without retain-tags) under a single transient failure at EVERY metadata call: bundles to keep are never removed and stay downloadable whatever squash reports, a reported success means exactly the specified set; distinct = distinct cases"
 	parent := lib.RunCases(t, rep, "TestC10", len(cases), 0, 120*time.Second, func(i int) {
 		c10run(t, rep, cases[i])
 		rep.AddStates(1, 1, 1)
